@@ -2,16 +2,20 @@ import AtreeProofs.Codec.RoundTrip
 import AtreeProofs.ArrayInv
 /-
   C06 — Reported slab sizes equal the bytes actually written.
-  PROPERTY THEOREMS about the byte-level model (`AtreeModel/Codec`), for the slab kinds it covers:
-  standalone array data slabs (root / non-root), array index slabs, large-value slabs, with the
-  harness's elements (byte strings of every CBOR head width, the three gap sizes, slab references)
-  and type infos.
+  PROPERTY THEOREMS about the byte-level model (`AtreeModel/Codec`).
 
-  NOT covered here (outside the byte-level model): inlined array/map children and the shared
-  inlined-extra-data section (so also the "hoisted keys" deviation of compact maps), and every map
-  slab.  For the covered kinds the theorems are at full strength: the only deviation between
-  encoded length and reported size is the omitted 16-byte sibling link of a non-root data slab
-  with undefined `next`, plus the root's extra-data section.
+  First part (this section of the file, unchanged): standalone array data slabs (root / non-root),
+  array index slabs, large-value slabs, with the harness's elements (byte strings of every CBOR head
+  width, the three gap sizes, slab references) and type infos.  For these kinds the only deviation
+  between encoded length and reported size is the omitted 16-byte sibling link of a non-root data
+  slab with undefined `next`, plus the root's extra-data section.  `SlabOK` is `False` for the slab
+  kinds added later (`adata`, `mdata`, `mindex`, `storableG`), which have their own theorems.
+
+  The byte-level model now also covers map data / index / collision-group slabs, inlined arrays and
+  maps, wrappers, the shared inlined-extra-data section and compact maps; the model's sizes of these
+  kinds are functions of the content (`Stor.size`, `MEls.size`, `MapData.size`, …) and the trace
+  replayer checks on every `ENC` line that every size the implementation keeps in a header field
+  equals the computed one and that the length law holds (`≤` when compact maps hoist their keys).
 -/
 namespace Atree.C06
 open Atree Atree.Codec Atree.Gen
@@ -64,6 +68,10 @@ theorem enc_len (s : Slab) (ok : SlabOK s)
   | storable id e =>
     simp only [encodeSlab, Slab.byteSize, Slab.extraDataLen, Nat.add_zero]
     exact Codec.enc_len_storable e ok
+  | adata _ => exact ok.elim
+  | mdata _ => exact ok.elim
+  | mindex _ => exact ok.elim
+  | storableG _ _ => exact ok.elim
 
 /-- A slab decoded from its register reports the same size as the slab that produced the register
     — including the non-root data slab whose sibling link was omitted from the register. -/
